@@ -32,6 +32,7 @@ import (
 	"os"
 	"os/exec"
 	"path/filepath"
+	"runtime"
 	"sort"
 	"strings"
 	"sync"
@@ -237,6 +238,26 @@ func runTwo(dir, line string) int {
 	dataB := pattern(s.Seed, 2, s.NewLen/2+3)
 	out.Old = "-"
 	var opA, opB func() error
+	// writers whose data is a byte slice cannot be held in the middle: both calls are repeated `rounds` times and
+	// every round is started together (spin barrier), so that some rounds overlap
+	const rounds = 24
+	var arrived int32
+	together := func(op func() error) func() error {
+		return func() error {
+			for i := 1; i <= rounds; i++ {
+				atomic.AddInt32(&arrived, 1)
+				for spin := 0; atomic.LoadInt32(&arrived) < int32(2*i) && spin < 2000000; spin++ {
+					if spin%64 == 63 {
+						runtime.Gosched()
+					}
+				}
+				if err := op(); err != nil {
+					return err
+				}
+			}
+			return nil
+		}
+	}
 	// aMid is closed when A is in the middle of its content; bDone when B has returned. A's gate waits for bDone
 	// (bounded: a serialising implementation keeps B out until A is done — then the wait times out and A goes on).
 	aMid, bDone := make(chan struct{}), make(chan struct{})
@@ -277,8 +298,8 @@ func runTwo(dir, line string) int {
 		} else {
 			// no gate possible (the data is a byte slice): both start at a barrier
 			midOnce.Do(func() { close(aMid) })
-			opA = func() error { return renameio.WriteFile(names.dest, dataA, 0o644) }
-			opB = func() error { return renameio.WriteFile(names.dest, dataB, 0o644) }
+			opA = together(func() error { return renameio.WriteFile(names.dest, dataA, 0o644) })
+			opB = together(func() error { return renameio.WriteFile(names.dest, dataB, 0o644) })
 		}
 	case "two-fstree-put":
 		key := "k/rec"
@@ -304,8 +325,8 @@ func runTwo(dir, line string) int {
 		names.files[hashBytes(fa)], names.files[hashBytes(fb)] = "newA", "newB"
 		out.News = []string{"newA", "newB"}
 		midOnce.Do(func() { close(aMid) })
-		opA = func() error { _, err := st.Put(recA); return err }
-		opB = func() error { _, err := st.Put(recB); return err }
+		opA = together(func() error { _, err := st.Put(recA); return err })
+		opB = together(func() error { _, err := st.Put(recB); return err })
 	case "two-getfile", "two-file-unpack", "two-unpack-zip":
 		reg := &updater.ResourceRegistry{Name: "verif", Online: s.Writer == "two-getfile"}
 		if err := reg.Initialize(utils.NewDirStructure(root+"/dst", 0o755)); err != nil {
